@@ -23,3 +23,5 @@ open StarsimModel.C10
 #print axioms C10_plan_shape
 #print axioms C10_plan_every_module_set
 #print axioms C10_life_status_single_writer
+#print axioms C10_finalize_exact
+#print axioms C10_step_balance_recorded
